@@ -196,6 +196,14 @@ def generate_C13(rng, tier):
             for cap in caps:
                 for kind in "gd":
                     yield "elias_cap %s %s %d" % (kind, lst(xs), cap)
+    # constant arrays: repeated codes that line up with byte boundaries (value 1 gives
+    # all-ones bytes) — the shapes a run/byte fast path would special-case — at every
+    # capacity around a byte's worth of values (added after seeded change C14-2)
+    for v in (1, 2, 3, 4, 15, 16, 255, 256):
+        for n in (8, 9, 16, 17, 24, 40):
+            for cap in sorted(set([0, 1, 2, 7, 8, 9, 15, 16, n - 1, n])):
+                for kind in "gd":
+                    yield "elias_cap %s %s %d" % (kind, lst([v] * n), cap)
     for _ in range(300 if tier == "quick" else 6000):
         n = rng.randint(1, 300 if tier == "quick" else 3000)
         xs = [rand_val(rng) if rng.random() < 0.3 else geometric(rng) for _ in range(n)]
